@@ -1013,6 +1013,57 @@ class _Inliner:
         self.count += 1
         return _tidy(pre + stmts), res
 
+    def _split_tuple_result(self, stmts, res, targets):
+        """`a, b = helper()` where every return of the helper is a 2-tuple:
+        the lowered `R = (x, y)` assignments become `a = x; b = y`."""
+        if not (isinstance(res, ast.Name) and len(targets) == 1 and
+                isinstance(targets[0], ast.Tuple) and all(
+                    isinstance(t, ast.Name) for t in targets[0].elts)):
+            return None
+        names = [t.id for t in targets[0].elts]
+        asg = []
+        for s_ in stmts:
+            for x in ast.walk(s_):
+                if isinstance(x, ast.Assign) and any(
+                        isinstance(t, ast.Name) and t.id == res.id
+                        for t in x.targets):
+                    asg.append(x)
+                elif isinstance(x, ast.Name) and x.id == res.id and \
+                        isinstance(x.ctx, ast.Load):
+                    return None
+        if not asg:
+            return None
+        for x in asg:
+            if not (len(x.targets) == 1 and isinstance(x.value, ast.Tuple)
+                    and len(x.value.elts) == len(names)):
+                return None
+            for i, e in enumerate(x.value.elts):
+                if any(isinstance(y, ast.Name) and y.id in names[:i]
+                       for y in ast.walk(e)):
+                    return None
+
+        def rewrite(lst):
+            out = []
+            for s_ in lst:
+                for fld in ('body', 'orelse', 'finalbody'):
+                    sub = getattr(s_, fld, None)
+                    if isinstance(sub, list) and sub and isinstance(
+                            sub[0], ast.stmt):
+                        setattr(s_, fld, rewrite(sub))
+                if isinstance(s_, ast.Try):
+                    for h in s_.handlers:
+                        h.body = rewrite(h.body)
+                if s_ in asg:
+                    for n_, e in zip(names, s_.value.elts):
+                        a_ = ast.Assign(targets=[ast.Name(
+                            id=n_, ctx=ast.Store())], value=e)
+                        ast.copy_location(a_, s_)
+                        out.append(a_)
+                else:
+                    out.append(s_)
+            return out
+        return rewrite(stmts)
+
     def single_expr(self, fn):
         body = [s for s in fn.body
                 if not (isinstance(s, ast.Expr) and
@@ -1264,6 +1315,9 @@ class _Inliner:
         if mode == 'assign':
             if isinstance(res, ast.Name) and res.id == rn:
                 return stmts
+            split = self._split_tuple_result(stmts, res, st.targets)
+            if split is not None:
+                return split
             return stmts + [ast.Assign(targets=st.targets, value=res)]
         if mode == 'expr':
             if isinstance(res, ast.Constant) or isinstance(res, ast.Name):
